@@ -125,7 +125,8 @@ def parseRq (j : Json) (useOpts : Bool) : Rq :=
             hasBody := getBool rq "hasBody", bodyOK := getStr rq "bodyFail" == "" },
     declared := strs (getArr rq "declared"),
     -- "noauth": no AuthenticationFunc configured. Validator (useOpts): validateSecurityRequirement returns
-    -- ErrAuthenticationServiceMissing for every requirement; ValidationHandler: Load installs the no-op function,
+    -- ErrAuthenticationServiceMissing for every non-empty requirement (an empty one, {}, passes before the function
+    -- is looked for — 1f8c043; in the C07 model an empty requirement makes no authentication call at all); ValidationHandler: Load installs the no-op function,
     -- which accepts every scheme it is asked about (undeclared schemes fail before it is asked)
     accepted := if getBool rq "noauth" then
                   (if useOpts then [] else
@@ -170,6 +171,8 @@ def rqBranches (j : Json) (r : Rq) : List String :=
   (if r.o.excludeQuery && (r.op.pathParams ++ r.op.opParams).any (fun p => p.loc == .query) then ["rq.opt.exq"] else []) ++
   (if r.o.multiError then ["rq.opt.multi"] else []) ++
   (if getBool (getD j "rq" Json.null) "noauth" then ["rq.noauth"] else []) ++
+  (if (KinModel.Request.securityList r.op).any (·.isEmpty) then
+     ["rq.sec.empty_requirement" ++ (if getBool (getD j "rq" Json.null) "noauth" then ".noauth" else "")] else []) ++
   (if getBool j "decoy" then ["doc.decoy"] else [])
 
 def insertKV (p : String × String) : List (String × String) → List (String × String)
@@ -209,6 +212,7 @@ def opBranches (ops : List Op) (strict : Bool) : List String :=
   (if ops.any (fun o => o == .flush) then ["ops.flush"] else []) ++
   (if after.any (fun o => match o with | .setHdr _ _ => true | .delHdr _ => true | _ => false) then ["ops.hdr_after_status"] else []) ++
   (if !validCodesB ops then ["ops.invalid_code"] else []) ++
+  (if badCode ops then ["ops.refused_effective_code"] else []) ++
   (if ops.any (fun o => match o with | .write [] => true | _ => false) then ["ops.empty_write"] else []) ++
   (if ops.any (fun o => match o with | .write bs => bs.length ≥ 4096 | _ => false) then ["ops.big_write"] else []) ++
   (if ops.any opInfo then ["ops.info_code"] else []) ++
@@ -271,7 +275,7 @@ def renderMw (j : Json) (p : MwIn) (o : Outcome) : Json :=
   let rq := p.rq
   let env := p.env
   let s := spec cfg env ops
-  let applicable := validCodesB ops
+  let applicable := true   -- `middleware_meets_spec_total` has no hypothesis: the spec is an oracle for every handler
   let excl : List String := []
   let rawOps := getArr j "ops"
   let vopts := getArr j "vopts"
@@ -314,7 +318,9 @@ def renderMw (j : Json) (p : MwIn) (o : Outcome) : Json :=
                    ("err", jstrs (s.errCalls.map errStr)),
                    ("panicked", Json.bool (s.panicked || (match s.full with | some c => aborted c | none => false))),
                    ("full", match s.full with | some c => jobj (jclient c) | none => Json.null),
-                   ("meets", Json.bool (meetsB o s))]),
+                   -- a dead writer with nothing on the wire is acceptable as well (refused status code, strict mode)
+                   ("orDead", Json.bool s.orDead),
+                   ("meets", Json.bool (meetsTB o s))]),
     ("excl", jstrs excl),
     ("branches", jstrs branches)]
 
